@@ -619,6 +619,7 @@ func init() {
 		modesOn := fs.String("modes-on", "ct,nct", "modes used with rows-on")
 		bfinal := fs.Bool("bfinal", true, "also end compressed messages with a BFINAL=1 block")
 		maxRows := fs.Int("max-rows", 0, "sample at most this many rows per file (0 = all)")
+		fuzz := fs.Int("fuzz", 0, "number of raw / mutated byte strings (no-panic and termination only)")
 		sizes := fs.String("sizes", "", "comma list of a-b ranges: payload sizes for the carrier rows (buffer and framing boundaries)")
 		fs.Parse(args)
 		var sizeList []int
@@ -715,6 +716,49 @@ func init() {
 		}
 		if err := feed(*rowsOn, splitComma(*modesOn)); err != nil {
 			return err
+		}
+		// raw byte strings and mutated valid streams: only "never a panic, always terminates" is required of them
+		for i := 0; i < *fuzz; i++ {
+			i := i
+			jobs <- func(rng *rand.Rand) {
+				fr := rand.New(rand.NewSource(*seed*7777 + int64(i)))
+				client := fr.Intn(2) == 0
+				mode := []string{"off", "ct", "nct"}[fr.Intn(3)]
+				var data []byte
+				switch fr.Intn(3) {
+				case 0:
+					data = make([]byte, fr.Intn(300))
+					fr.Read(data)
+				case 1: // a valid frame sequence with a few flipped bytes
+					for k := 0; k < 1+fr.Intn(4); k++ {
+						f := ws.Frame{Fin: fr.Intn(2) == 0, Op: []int{0, 1, 2, 8, 9, 10}[fr.Intn(6)], Masked: !client, Rsv1: mode != "off" && fr.Intn(3) == 0, Payload: prf(int64(i), k, fr.Intn(140))}
+						fr.Read(f.Key[:])
+						data = append(data, f.Encode()...)
+					}
+					for k := 0; k < 1+fr.Intn(3) && len(data) > 0; k++ {
+						data[fr.Intn(len(data))] ^= byte(1 << uint(fr.Intn(8)))
+					}
+				default: // a compressed frame whose DEFLATE payload is garbage or truncated
+					z := (&ws.Deflater{}).Compress(prf(int64(i), 1, 50+fr.Intn(500)))
+					if len(z) > 2 {
+						z = z[:fr.Intn(len(z))]
+					}
+					if fr.Intn(2) == 0 && len(z) > 0 {
+						z[fr.Intn(len(z))] ^= 0xff
+					}
+					f := ws.Frame{Fin: true, Rsv1: true, Op: ws.OpBin, Masked: !client, Payload: z}
+					data = f.Encode()
+				}
+				v := variant{Client: client, Mode: mode, Chunk: []string{"whole", "one", "rand"}[fr.Intn(3)], ReadBuf: 64, API: "reader"}
+				o := runRecv(recvCfg{v: v, stream: data, cutAt: -1}, rng)
+				id := map[string]interface{}{"fuzz": i, "variant": v, "bytes": fmt.Sprintf("%x", data)}
+				if o.panicked != "" {
+					rep.miss("panic", id, o.panicked)
+				} else if o.pending {
+					rep.miss("pending", id, "reader did not finish within 8s on arbitrary input")
+				}
+				atomic.AddInt64(&evals, 1)
+			}
 		}
 		close(jobs)
 		<-done
